@@ -328,42 +328,31 @@ impl NetflowParser {
     ///
     #[inline]
     pub fn parse_bytes(&mut self, packet: &[u8]) -> Vec<NetflowPacket> {
-        if packet.is_empty() {
-            return vec![];
+        // One iteration per packet in the buffer.  This used to recurse once per packet, which
+        // overflowed the stack on a buffer packed with minimal packets.
+        let mut results = vec![];
+        let mut remaining = packet.to_vec();
+
+        while !remaining.is_empty() {
+            match self.parse_packet_by_version(&remaining) {
+                Ok(parsed_netflow) => {
+                    results.push(parsed_netflow.result);
+                    remaining = parsed_netflow.remaining;
+                }
+                Err(NetflowParseError::UnallowedVersion(_)) => break,
+                Err(e) => {
+                    // Incomplete, Partial and UnknownVersion end the buffer with one error element
+                    // that carries the unconsumed bytes.
+                    results.push(NetflowPacket::Error(NetflowPacketError {
+                        error: e,
+                        remaining,
+                    }));
+                    break;
+                }
+            }
         }
 
-        match self.parse_packet_by_version(packet) {
-            Ok(parsed_netflow) => {
-                let mut results = vec![parsed_netflow.result];
-                if !parsed_netflow.remaining.is_empty() {
-                    results.extend(self.parse_bytes(&parsed_netflow.remaining));
-                }
-                results
-            }
-            Err(e) => match e {
-                NetflowParseError::Incomplete(_) => {
-                    vec![NetflowPacket::Error(NetflowPacketError {
-                        error: e,
-                        remaining: packet.to_vec(),
-                    })]
-                }
-                NetflowParseError::Partial(partial) => {
-                    vec![NetflowPacket::Error(NetflowPacketError {
-                        error: NetflowParseError::Partial(partial),
-                        remaining: packet.to_vec(),
-                    })]
-                }
-                NetflowParseError::UnknownVersion(_) => {
-                    vec![NetflowPacket::Error(NetflowPacketError {
-                        error: e,
-                        remaining: packet.to_vec(),
-                    })]
-                }
-                NetflowParseError::UnallowedVersion(_) => {
-                    vec![]
-                }
-            },
-        }
+        results
     }
 
     /// Takes a Netflow packet slice and returns a vector of Parsed NetflowCommonFlowSet
